@@ -78,6 +78,18 @@ class Encoder:
         self.uf_apps = []  # (fname, [arg ids], node id)
         self.used_uf = set()
 
+    def simple_exponent(self, idx):
+        n = self.nodes[idx]
+        if n[0] != "const":
+            return None
+        v = struct.unpack("<d", struct.pack("<Q", int(n[1])))[0]
+        if v <= 0:
+            return None
+        f = Fraction(v).limit_denominator(3)
+        if f.numerator <= 3 and abs(float(f) - v) <= 1e-15 * max(1.0, abs(v)):
+            return f
+        return None
+
     def cone(self, roots):
         seen, stack = set(), list(roots)
         while stack:
@@ -154,6 +166,16 @@ class Encoder:
                 expr = f"(ite (>= {a[0]} 0.0) (to_real (to_int (+ {a[0]} 0.5))) (- (to_real (to_int (+ (- {a[0]}) 0.5)))))"
             elif op == "ite":
                 expr = f"(ite {a[0]} {a[1]} {a[2]})"
+            elif op == "pow" and self.simple_exponent(n[2]) is not None:
+                # x^(p/q) with small p, q: exact algebraic encoding  r >= 0, r^q = x^p  (for x >= 0)
+                pq = self.simple_exponent(n[2])
+                s_ = f"pw{i}"
+                self.lines.append(f"(declare-const {s_} Real)")
+                lhs = s_ if pq.denominator == 1 else "(* " + " ".join([s_] * pq.denominator) + ")"
+                rhs = a[0] if pq.numerator == 1 else "(* " + " ".join([a[0]] * pq.numerator) + ")"
+                self.lines.append(f"(assert (=> (>= {a[0]} 0.0) (and (>= {s_} 0.0) (= {lhs} {rhs}))))")
+                self.done[i] = s_
+                continue
             elif op == "pow":
                 self.used_uf.add("pow")
                 self.uf_apps.append(("pow", [n[1], n[2]], i))
